@@ -105,6 +105,9 @@ Ltac pow2 :=
   change (2 ^ 1) with 2 in *; change (2 ^ 2) with 4 in *; change (2 ^ 4) with 16 in *;
   change (2 ^ 6) with 64 in *; change (2 ^ 8) with 256 in *; change (2 ^ 0) with 1 in *.
 
+Ltac eqE := match goal with |- E _ = E _ => apply f_equal; lia | |- _ => reflexivity end.
+Ltac list_E := repeat (apply f_equal2; [eqE|]); try reflexivity.
+
 Lemma byte_lt b : is_byte b = true -> b < 256.
 Proof. unfold is_byte. lia. Qed.
 
@@ -137,7 +140,7 @@ Proof.
   rewrite (lor_shiftl_add a (b / 2 ^ 4) 4) by (pow2; lia).
   rewrite (lor_shiftl_add b (c / 2 ^ 6) 2) by (pow2; lia).
   pow2.
-  repeat f_equal; lia.
+  list_E.
 Qed.
 
 Lemma raw_loop_spec r : forallb is_byte r = true -> lenN r mod 3 = 0 ->
@@ -181,7 +184,7 @@ Proof.
       { rewrite <- (rev_involutive x), Er. reflexivity. }
       rewrite Hx'. rewrite enc_spec_app3 by (rewrite lenN_rev; lia).
       cbn [enc_spec]. rewrite !ENC_E, N.shiftr_div_pow2, N.shiftl_mul_pow2. pow2.
-      repeat f_equal; lia.
+      list_E.
     + destruct (rev x) as [|i1 [|i0 r']] eqn:Er.
       { cbn [lenN] in Hlen. rewrite <- Hlen in E0. discriminate E0. }
       { cbn [lenN] in Hlen. rewrite <- Hlen in E1. discriminate E1. }
@@ -191,7 +194,258 @@ Proof.
       assert (Hx' : x = rev r' ++ [i0; i1]).
       { rewrite <- (rev_involutive x), Er. cbn [rev]. rewrite <- app_assoc. reflexivity. }
       rewrite Hx'. rewrite enc_spec_app3 by (rewrite lenN_rev; lia).
-      cbn [enc_spec]. rewrite !ENC_E, !N.shiftr_div_pow2, N.shiftl_mul_pow2.
-      rewrite (lor_shiftl_add i0 (i1 / 2 ^ 4) 4) by (pow2; lia). pow2.
-      repeat f_equal; lia.
+      cbn [enc_spec]. rewrite !ENC_E, !N.shiftr_div_pow2.
+      rewrite (lor_shiftl_add i0 (i1 / 2 ^ 4) 4) by (pow2; lia).
+      rewrite N.shiftl_mul_pow2. pow2.
+      list_E.
+Qed.
+
+(* ================================================================== *)
+(* 4. the streaming encoder (encode_single / encode_update / encode_final) *)
+
+(* specification of streaming: a state is (number of buffered bits, their value);
+   each input byte emits one or two symbols *)
+Definition sstep (st : N * N) (s : N) : bytes * (N * N) :=
+  let '(bits, p) := st in
+  if bits =? 0 then ([E (s / 4)], (2, s mod 4))
+  else if bits =? 2 then ([E (p * 16 + s / 16)], (4, s mod 16))
+  else ([E (p * 4 + s / 64); E (s mod 64)], (0, 0)).
+
+Fixpoint ssteps (st : N * N) (l : bytes) : bytes * (N * N) :=
+  match l with
+  | [] => ([], st)
+  | s :: r => let '(o, st1) := sstep st s in
+              let '(o2, st2) := ssteps st1 r in (o ++ o2, st2)
+  end.
+
+Definition sfinal (st : N * N) : bytes :=
+  let '(bits, p) := st in
+  if bits =? 0 then [] else if bits =? 2 then [E (p * 16); PAD; PAD] else [E (p * 4); PAD].
+
+Lemma ssteps_app st a b :
+  ssteps st (a ++ b) =
+  let '(o1, s1) := ssteps st a in let '(o2, s2) := ssteps s1 b in (o1 ++ o2, s2).
+Proof.
+  revert st; induction a as [|x a IH]; intros st; cbn [app ssteps].
+  - destruct (ssteps st b). reflexivity.
+  - destruct (sstep st x) as [o st1]. rewrite IH.
+    destruct (ssteps st1 a) as [o1 s1]. destruct (ssteps s1 b) as [o2 s2].
+    rewrite app_assoc. reflexivity.
+Qed.
+
+Lemma ssteps_triple a b c r :
+  ssteps (0, 0) (a :: b :: c :: r) = let '(o, st) := ssteps (0, 0) r in (grp a b c ++ o, st).
+Proof.
+  cbn [ssteps]. unfold sstep at 1. change (0 =? 0) with true. cbv iota beta.
+  unfold sstep at 1. change (2 =? 0) with false. change (2 =? 2) with true. cbv iota beta.
+  unfold sstep at 1. change (4 =? 0) with false. change (4 =? 2) with false. cbv iota beta.
+  destruct (ssteps (0, 0) r) as [o st]. reflexivity.
+Qed.
+
+Lemma ssteps_bulk l : lenN l mod 3 = 0 -> ssteps (0, 0) l = (enc_spec l, (0, 0)).
+Proof.
+  revert l. apply (list_ind3 (fun l => lenN l mod 3 = 0 -> ssteps (0, 0) l = (enc_spec l, (0, 0)))).
+  - reflexivity.
+  - intros a H. cbn [lenN] in H. discriminate H.
+  - intros a b H. cbn [lenN] in H. discriminate H.
+  - intros a b c r IH H. cbn [lenN] in H. rewrite ssteps_triple, IH by lia. reflexivity.
+Qed.
+
+Lemma enc_spec_ssteps l :
+  enc_spec l = fst (ssteps (0, 0) l) ++ sfinal (snd (ssteps (0, 0) l)).
+Proof.
+  revert l. apply list_ind3.
+  - reflexivity.
+  - intros a. reflexivity.
+  - intros a b. reflexivity.
+  - intros a b c r IH. rewrite ssteps_triple. destruct (ssteps (0, 0) r) as [o st].
+    cbn [fst snd] in *. rewrite enc_spec_cons3, IH, app_assoc. reflexivity.
+Qed.
+
+(* the C context seen abstractly; only the low e_bits bits of word matter *)
+Definition eabs (c : ectx) : N * N := (e_bits c, e_word c mod 2 ^ e_bits c).
+Definition evalid (c : ectx) : Prop := e_bits c = 0 \/ e_bits c = 2 \/ e_bits c = 4.
+
+Lemma enc_emit_stop fuel w bits : bits < 6 -> enc_emit fuel w bits = ([], bits).
+Proof.
+  intros H. destruct fuel; cbn [enc_emit]; [reflexivity|].
+  destruct (6 <=? bits) eqn:E6; [lia|reflexivity].
+Qed.
+
+Lemma enc_emit_go f w bits : 6 <= bits ->
+  enc_emit (S f) w bits =
+  let '(o, b) := enc_emit f w (bits - 6) in (ENC (N.shiftr w (bits - 6)) :: o, b).
+Proof. intros H. cbn [enc_emit]. destruct (6 <=? bits) eqn:E6; [reflexivity|lia]. Qed.
+
+(* the fuel handed to the while loop always suffices: it stops only when bits < 6 *)
+Lemma enc_emit_fuel fuel w bits : (N.to_nat bits <= fuel)%nat -> snd (enc_emit fuel w bits) < 6.
+Proof.
+  revert bits; induction fuel as [|f IH]; intros bits H; cbn [enc_emit].
+  - cbn [snd]. lia.
+  - destruct (6 <=? bits) eqn:E6; [|cbn [snd]; lia].
+    specialize (IH (bits - 6) ltac:(lia)). destruct (enc_emit f w (bits - 6)). exact IH.
+Qed.
+
+Lemma encode_single_sstep ctx s : evalid ctx -> s < 256 ->
+  sstep (eabs ctx) s = (fst (encode_single ctx s), eabs (snd (encode_single ctx s))) /\
+  evalid (snd (encode_single ctx s)).
+Proof.
+  destruct ctx as [w b]. unfold evalid, eabs. cbn [e_bits e_word].
+  intros Hv Hs. unfold encode_single. cbn [e_bits e_word].
+  rewrite (lor_shiftl_add w (s mod 256) 8) by (pow2; lia).
+  destruct Hv as [-> | [-> | ->]].
+  - change (0 + 8) with 8. change (N.to_nat 8) with 8%nat.
+    rewrite enc_emit_go by lia. change (8 - 6) with 2. rewrite enc_emit_stop by lia.
+    cbn [fst snd e_bits e_word]. change (2 mod 256) with 2. unfold sstep. change (0 =? 0) with true.
+    cbv iota beta. rewrite ENC_E, N.shiftr_div_pow2. pow2. split; [|auto].
+    f_equal; [list_E | f_equal; lia].
+  - change (2 + 8) with 10. change (N.to_nat 10) with 10%nat.
+    rewrite enc_emit_go by lia. change (10 - 6) with 4. rewrite enc_emit_stop by lia.
+    cbn [fst snd e_bits e_word]. change (4 mod 256) with 4. unfold sstep.
+    change (2 =? 0) with false. change (2 =? 2) with true.
+    cbv iota beta. rewrite ENC_E, N.shiftr_div_pow2. pow2. split; [|auto].
+    f_equal; [list_E | f_equal; lia].
+  - change (4 + 8) with 12. change (N.to_nat 12) with 12%nat.
+    rewrite enc_emit_go by lia. change (12 - 6) with 6.
+    rewrite enc_emit_go by lia. change (6 - 6) with 0. rewrite enc_emit_stop by lia.
+    cbn [fst snd e_bits e_word]. change (0 mod 256) with 0. unfold sstep.
+    change (4 =? 0) with false. change (4 =? 2) with false.
+    cbv iota beta. rewrite !ENC_E, !N.shiftr_div_pow2. pow2. split; [|auto].
+    f_equal; [list_E | f_equal; lia].
+Qed.
+
+Lemma enc_singles_ssteps src : forall ctx, evalid ctx -> forallb is_byte src = true ->
+  ssteps (eabs ctx) src = (fst (enc_singles ctx src), eabs (snd (enc_singles ctx src))) /\
+  evalid (snd (enc_singles ctx src)).
+Proof.
+  induction src as [|s r IH]; intros ctx Hv Hb; cbn [enc_singles ssteps].
+  - split; [reflexivity|exact Hv].
+  - cbn [forallb] in Hb. apply andb_true_iff in Hb as [Hs Hr]. apply byte_lt in Hs.
+    destruct (encode_single_sstep ctx s Hv Hs) as [H1 Hv1].
+    destruct (encode_single ctx s) as [o c1]. cbn [fst snd] in *.
+    rewrite H1. destruct (IH c1 Hv1 Hr) as [H2 Hv2].
+    destruct (enc_singles c1 r) as [o2 c2]. cbn [fst snd] in *. rewrite H2. split; [reflexivity|exact Hv2].
+Qed.
+
+Lemma enc_phase1_ssteps src : forall ctx, evalid ctx -> forallb is_byte src = true ->
+  let '(o, c1, rest) := enc_phase1 ctx src in
+  exists pre, src = pre ++ rest /\ ssteps (eabs ctx) pre = (o, eabs c1) /\ evalid c1 /\
+              (rest = [] \/ e_bits c1 = 0).
+Proof.
+  induction src as [|s r IH]; intros ctx Hv Hb; cbn [enc_phase1].
+  - exists []. repeat split; auto.
+  - destruct (e_bits ctx =? 0) eqn:E0.
+    + exists []. repeat split; auto. right. apply N.eqb_eq. exact E0.
+    + cbn [forallb] in Hb. apply andb_true_iff in Hb as [Hs Hr]. apply byte_lt in Hs.
+      destruct (encode_single_sstep ctx s Hv Hs) as [H1 Hv1].
+      destruct (encode_single ctx s) as [o c1]. cbn [fst snd] in *.
+      specialize (IH c1 Hv1 Hr). destruct (enc_phase1 c1 r) as [[o2 c2] rest].
+      destruct IH as [pre [Hsrc [Hst [Hv2 Hor]]]].
+      exists (s :: pre). repeat split; auto.
+      * rewrite Hsrc. reflexivity.
+      * cbn [ssteps]. rewrite H1, Hst. reflexivity.
+Qed.
+
+Lemma lenN_takeN_le {A} n (l : list A) : n <= lenN l -> lenN (takeN n l) = n.
+Proof. intros H. rewrite lenN_takeN. lia. Qed.
+
+(* one base64_encode_update call = the streaming specification on that chunk *)
+Lemma encode_update_ssteps ctx src : evalid ctx -> forallb is_byte src = true ->
+  ssteps (eabs ctx) src = (fst (encode_update ctx src), eabs (snd (encode_update ctx src))) /\
+  evalid (snd (encode_update ctx src)).
+Proof.
+  intros Hv Hb. unfold encode_update.
+  pose proof (enc_phase1_ssteps src ctx Hv Hb) as H1.
+  destruct (enc_phase1 ctx src) as [[o1 c1] rest].
+  destruct H1 as [pre [Hsrc [Hst [Hv1 Hor]]]].
+  assert (Hbr : forallb is_byte rest = true).
+  { rewrite Hsrc in Hb. apply forallb_app_iff in Hb. tauto. }
+  set (bulk := lenN rest - lenN rest mod 3).
+  assert (Hbulk : bulk <= lenN rest) by (unfold bulk; lia).
+  assert (Hb3 : bulk mod 3 = 0) by (unfold bulk; lia).
+  pose proof (enc_singles_ssteps (dropN bulk rest) c1 Hv1 (forallb_dropN _ _ _ Hbr)) as [H3 Hv3].
+  destruct (enc_singles c1 (dropN bulk rest)) as [o3 c3]. cbn [fst snd] in *.
+  split; [|exact Hv3].
+  rewrite Hsrc, ssteps_app, Hst.
+  rewrite <- (takeN_dropN bulk rest) at 1. rewrite ssteps_app.
+  destruct Hor as [Hnil | Hz].
+  - (* the whole chunk went through single-byte steps *)
+    subst rest. cbn [lenN] in *. assert (bulk = 0) by lia. subst bulk.
+    replace (lenN (@nil N) - lenN (@nil N) mod 3 =? 0) with true in * by reflexivity.
+    cbn [takeN dropN ssteps] in *. inversion H3; subst. rewrite !app_nil_r. reflexivity.
+  - (* no buffered bits: bulk through encode_raw *)
+    assert (Ha : eabs c1 = (0, 0)).
+    { unfold eabs. rewrite Hz. change (2 ^ 0) with 1. rewrite N.mod_1_r. reflexivity. }
+    rewrite Ha in *.
+    rewrite ssteps_bulk by (rewrite lenN_takeN_le; assumption).
+    rewrite H3. f_equal. f_equal.
+    destruct (bulk =? 0) eqn:Eb.
+    + apply N.eqb_eq in Eb. rewrite Eb. destruct rest; reflexivity.
+    + rewrite encode_raw_spec; [reflexivity|]. apply forallb_takeN. exact Hbr.
+Qed.
+
+Lemma encode_final_sfinal ctx : evalid ctx -> fst (encode_final ctx) = sfinal (eabs ctx).
+Proof.
+  destruct ctx as [w b]. unfold evalid, eabs, encode_final, sfinal. cbn [e_bits e_word].
+  intros [-> | [-> | ->]].
+  - reflexivity.
+  - change (2 =? 0) with false. change (2 =? 2) with true. cbv iota. cbn [fst pad_loop].
+    change (2 <? 6) with true. change (2 + 2) with 4. change (4 <? 6) with true. change (4 + 2) with 6.
+    change (6 <? 6) with false. cbv iota. change (6 - 2) with 4.
+    rewrite ENC_E, N.shiftl_mul_pow2. pow2. list_E.
+  - change (4 =? 0) with false. change (4 =? 2) with false. cbv iota. cbn [fst pad_loop].
+    change (4 <? 6) with true. change (4 + 2) with 6. change (6 <? 6) with false. cbv iota.
+    change (6 - 4) with 2. rewrite ENC_E, N.shiftl_mul_pow2. pow2. list_E.
+Qed.
+
+Lemma encode_chunks_ssteps chunks : forall ctx, evalid ctx -> forallb is_byte (concat chunks) = true ->
+  encode_chunks ctx chunks =
+  fst (ssteps (eabs ctx) (concat chunks)) ++ sfinal (snd (ssteps (eabs ctx) (concat chunks))).
+Proof.
+  induction chunks as [|s r IH]; intros ctx Hv Hb; cbn [encode_chunks concat].
+  - cbn [ssteps fst snd app]. apply encode_final_sfinal. exact Hv.
+  - apply forallb_app_iff in Hb as [Hs Hr].
+    destruct (encode_update_ssteps ctx s Hv Hs) as [H1 Hv1].
+    destruct (encode_update ctx s) as [o c1]. cbn [fst snd] in *.
+    rewrite ssteps_app, H1, (IH c1 Hv1 Hr).
+    destruct (ssteps (eabs c1) (concat r)) as [o2 s2]. cbn [fst snd]. rewrite app_assoc. reflexivity.
+Qed.
+
+(* T: whatever way the input is cut into base64_encode_update calls, update*;final produces the
+   RFC 4648 encoding of the whole input *)
+Theorem encode_chunks_spec chunks : all_bytes_ok (concat chunks) ->
+  encode_chunks ectx_init chunks = enc_spec (concat chunks).
+Proof.
+  intros Hb. rewrite encode_chunks_ssteps; [|left; reflexivity|exact Hb].
+  change (eabs ectx_init) with (0, 0). symmetry. apply enc_spec_ssteps.
+Qed.
+
+Theorem b64_encode_spec x : all_bytes_ok x -> b64_encode x = enc_spec x.
+Proof.
+  intros Hb. unfold b64_encode. rewrite encode_chunks_spec; cbn [concat]; rewrite app_nil_r; auto.
+Qed.
+
+(* output length of one update call stays within BASE64_ENCODE_LENGTH (the assert at its end) *)
+Lemma ssteps_len st l o st' : (fst st = 0 \/ fst st = 2 \/ fst st = 4) -> ssteps st l = (o, st') ->
+  6 * lenN o + fst st' = fst st + 8 * lenN l /\ (fst st' = 0 \/ fst st' = 2 \/ fst st' = 4).
+Proof.
+  revert st o st'; induction l as [|s r IH]; intros [b p] o st' Hv H; cbn [ssteps] in H.
+  - inversion H; subst. cbn [lenN fst] in *. split; [lia|exact Hv].
+  - destruct (sstep (b, p) s) as [o1 st1] eqn:E1. destruct (ssteps st1 r) as [o2 st2] eqn:E2.
+    inversion H; subst. cbn [fst] in Hv.
+    assert (H1 : 6 * lenN o1 + fst st1 = b + 8 /\ (fst st1 = 0 \/ fst st1 = 2 \/ fst st1 = 4)).
+    { unfold sstep in E1. destruct Hv as [-> | [-> | ->]].
+      - change (0 =? 0) with true in E1. inversion E1; subst. cbn [lenN fst]. lia.
+      - change (2 =? 0) with false in E1. change (2 =? 2) with true in E1. inversion E1; subst. cbn [lenN fst]. lia.
+      - change (4 =? 0) with false in E1. change (4 =? 2) with false in E1. inversion E1; subst. cbn [lenN fst]. lia. }
+    destruct H1 as [H1 Hv1]. destruct (IH st1 o2 st' Hv1 E2) as [H2 Hv2].
+    rewrite lenN_app. cbn [lenN fst]. split; [lia|exact Hv2].
+Qed.
+
+Theorem encode_update_length ctx src : evalid ctx -> all_bytes_ok src ->
+  lenN (fst (encode_update ctx src)) <= BASE64_ENCODE_LENGTH (lenN src).
+Proof.
+  intros Hv Hb. destruct (encode_update_ssteps ctx src Hv Hb) as [H _].
+  apply ssteps_len in H; [|exact Hv]. cbn [fst eabs] in H. destruct H as [H Hv'].
+  unfold BASE64_ENCODE_LENGTH. unfold evalid in Hv. lia.
 Qed.
